@@ -99,3 +99,30 @@ Theorem C18_source_new : forall c, g_tabs_new c = Ok (tabs_new c).
 Proof. exact tie_tabs_new. Qed.
 Check C18_source_new : forall c, g_tabs_new c = Ok (tabs_new c).
 Print Assumptions C18_source_new.
+
+From Avt Require Import Gen.TermFns Proofs.TermTie Proofs.TermTieW Proofs.TermTieX.
+(** SOURCE TIE BY PROOF (translate/term2coq.py -> Gen/TermFns.v, W-mode): the method of `impl Terminal` is REGENERATED from src/terminal.rs on every run as a function over the scalar record `zt` and an abstract world behind the interface `zops` (recorded calls of the buffer / tabs / dirty-line primitives with their evaluated arguments, queries for tab stops / cells / charset translation); instantiated with the model's own primitives (`Om`) it is proved equal to the hand-written model function, panics included: the model performs exactly the primitive calls the Rust text performs - same arguments, order, marked rows, erase modes, case splits *)
+(** Terminal::ctc *)
+Theorem C18_source_terminal_ctc : forall t op, ZW t -> w_ctc Om (zabs t) (wabs t) op = wres (Ok (ctc t op)).
+Proof. exact w_ctc_eq. Qed.
+Check C18_source_terminal_ctc : forall t op, ZW t -> w_ctc Om (zabs t) (wabs t) op = wres (Ok (ctc t op)).
+Print Assumptions C18_source_terminal_ctc.
+
+(** Terminal::tbc *)
+Theorem C18_source_terminal_tbc : forall t sc, ZW t -> w_tbc Om (zabs t) (wabs t) sc = wres (Ok (tbc t sc)).
+Proof. exact w_tbc_eq. Qed.
+Check C18_source_terminal_tbc : forall t sc, ZW t -> w_tbc Om (zabs t) (wabs t) sc = wres (Ok (tbc t sc)).
+Print Assumptions C18_source_terminal_tbc.
+
+(** Terminal::move_cursor_to_next_tab *)
+Theorem C18_source_terminal_next_tab : forall t n, ZW t -> w_move_cursor_to_next_tab Om (zabs t) (wabs t) (Z.of_nat n) = wres (move_cursor_to_next_tab t n).
+Proof. exact w_move_cursor_to_next_tab_eq. Qed.
+Check C18_source_terminal_next_tab : forall t n, ZW t -> w_move_cursor_to_next_tab Om (zabs t) (wabs t) (Z.of_nat n) = wres (move_cursor_to_next_tab t n).
+Print Assumptions C18_source_terminal_next_tab.
+
+(** Terminal::move_cursor_to_prev_tab *)
+Theorem C18_source_terminal_prev_tab : forall t n, ZW t -> w_move_cursor_to_prev_tab Om (zabs t) (wabs t) (Z.of_nat n) = wres (move_cursor_to_prev_tab t n).
+Proof. exact w_move_cursor_to_prev_tab_eq. Qed.
+Check C18_source_terminal_prev_tab : forall t n, ZW t -> w_move_cursor_to_prev_tab Om (zabs t) (wabs t) (Z.of_nat n) = wres (move_cursor_to_prev_tab t n).
+Print Assumptions C18_source_terminal_prev_tab.
+
